@@ -55,6 +55,9 @@ def make_scratch(repo, work):
 def harnesses_for(unit, tier):
     spec = config.UNITS[unit]
     hs = []
+    only = [x for x in os.environ.get('VERIF_KANI_ONLY', '').split(',') if x]   # development aid: run exactly these harnesses
+    if only:
+        return [h for h in spec['harnesses'] if h['name'] in only]
     for h in spec['harnesses']:
         ht = h.get('tier', 'quick')
         if tier == 'quick' and ht != 'quick':
